@@ -140,7 +140,8 @@ fn frames() -> Vec<Frame> {
         specs.push(("declared-unit-error", m));
     }
     for p in ["", "\"parameters\":null", "\"parameters\":{}", "\"parameters\":{\"code\":1,\"why\":\"w\"}", "\"parameters\":{\"code\":\"x\",\"why\":2}",
-        "\"parameters\":{\"code\":1}", "\"parameters\":{\"code\":1,\"why\":\"w\",\"extra\":true}", "\"parameters\":{\"a\":1,\"b\":\"x\"}"] {
+        "\"parameters\":{\"code\":1}", "\"parameters\":{\"code\":1,\"why\":\"w\",\"extra\":true}", "\"parameters\":{\"a\":1,\"b\":\"x\"}",
+        "\"parameters\":{\"code\":340282366920938463463374607431768211455,\"why\":\"w\"}", "\"parameters\":{\"code\":1,\"why\":\"12345678901234567890123456789012345678901234567890\"}"] {
         let mut m = vec![s("\"error\":\"a.Bad\"")];
         if !p.is_empty() { m.push(s(p)); }
         specs.push(("declared-struct-error", m.clone()));
@@ -152,7 +153,10 @@ fn frames() -> Vec<Frame> {
     // (the last ones are written with JSON escapes: the name can then not be borrowed from the message)
     for name in ["io.systemd.System", "a.NotFoun", "A.NotFound", "a.NotFound2", "a.bad", "", "NotFound", "org.varlink.service", "org.varlink.service.Nope", "b.Gone",
         "io.systemd\\u002eSystem", "org.example.Caf\\u00e9.Closed", "a.\\u004eotFound", "a.Not\\nFound", "org.varlink.service.\\u004dethodNotFound"] {
-        for p in ["", "\"parameters\":null", "\"parameters\":{}", "\"parameters\":{\"a\":1}", "\"parameters\":{\"id\":1,\"name\":\"n\"}", "\"parameters\":{\"errno\":5,\"origin\":\"x\"}"] {
+        // (the last ones carry the widest integers, a float with dozens of digits and long runs of digits in a string)
+        for p in ["", "\"parameters\":null", "\"parameters\":{}", "\"parameters\":{\"a\":1}", "\"parameters\":{\"id\":1,\"name\":\"n\"}", "\"parameters\":{\"errno\":5,\"origin\":\"x\"}",
+            "\"parameters\":{\"a\":340282366920938463463374607431768211455}", "\"parameters\":{\"b\":\"serial 00000000000000000000000012345678901234567890\",\"a\":-170141183460469231731687303715884105728}",
+            "\"parameters\":{\"a\":0.1234567890123456789012345678901234567890e-5}"] {
             let mut m = vec![format!("\"error\":\"{name}\"")];
             if !p.is_empty() { m.push(s(p)); }
             specs.push(("undeclared-error", m));
